@@ -8,6 +8,7 @@ real ``Translator().translate_hierarchy`` and compared with an independent recur
 evaluator, with the global call log of the factories (``vlib.c19_factories``) and - when a
 factory cannot be resolved or called - with the path built from keys and indices.
 """
+import collections
 import functools
 import itertools
 import re
@@ -18,7 +19,7 @@ KEYS = "abcdefgh"
 #: the other keys a configuration may use: names with leading / trailing underscores as
 #: keyword items of a typed mapping, non-string keys in plain mappings (str() of each is
 #: unambiguous inside a location)
-ODD_TYPED_KEYS = ("__leaf__", "__k", "_c", "d__", "__e__", "f", "__g", "h_")
+ODD_TYPED_KEYS = ("__leaf__", "factory", "_c", "mapping", "__e__", "where", "kwargs", "cls")
 ODD_PLAIN_KEYS = (1, None, False, "__p__", 7, 12, "q", "__r")
 SCALARS = (1, "text", None, 2.5, True, "")
 FACTORY_MODULE = "vlib.c19_factories"
@@ -121,6 +122,12 @@ def build(shape, marks, odd=False):
             for index, child in enumerate(node[2]):
                 out["__args__" if index == node[1] and marks[ident] is not None
                     else keys[index]] = rec_odd(child)
+            # mappings that are dicts of another make (what a loader or a Python
+            # configuration may hand over): they are mappings all the same
+            if ident % 3 == 1:
+                return collections.defaultdict(list, out)
+            if ident % 3 == 2:
+                return OwnInitDict(out)
             return out
 
         return rec_odd(shape)
@@ -143,7 +150,20 @@ def build(shape, marks, odd=False):
     return rec(shape)
 
 
+class OwnInitDict(dict):
+    """A dict subclass whose constructor does not take an iterable of pairs"""
+
+    def __init__(self, data, note="made by the harness"):
+        super().__init__(data)
+        self.note = note
+
+
 def clone(tree):
+    if isinstance(tree, OwnInitDict):
+        return OwnInitDict({key: clone(value) for key, value in tree.items()})
+    if isinstance(tree, collections.defaultdict):
+        return collections.defaultdict(
+            tree.default_factory, {key: clone(value) for key, value in tree.items()})
     if isinstance(tree, dict):
         return {key: clone(value) for key, value in tree.items()}
     if isinstance(tree, list):
@@ -208,10 +228,11 @@ def same(got, want):
         return (isinstance(got, Built) and got.kind == want.kind
                 and got.ident == want.ident and same(got.args, want.args)
                 and same(got.kwargs, want.kwargs))
+    if isinstance(want, dict) and isinstance(got, dict):
+        # which kind of dict a plain mapping comes back as is not part of the statement
+        return got.keys() == want.keys() and all(same(got[k], want[k]) for k in want)
     if type(got) is not type(want):
         return False
-    if isinstance(want, dict):
-        return got.keys() == want.keys() and all(same(got[k], want[k]) for k in want)
     if isinstance(want, (list, tuple)):
         return len(got) == len(want) and all(same(g, w) for g, w in zip(got, want))
     return got == want
